@@ -89,6 +89,13 @@ func c18(c *Check) {
 		},
 	})
 
+	c.Rule("C18/type-specific-initialisation", "frozen table: what each client type sets up for the installed header — BSC: epoch-block check, signer recovered from and recorded at the installed header, ALL previously tracked recent signers forgotten on upgrade, pending validator set parsed from the installed header; ETH: installed header indexed and its root recorded; Tendermint (table C07): consensus-state type check and processed-time / iteration metadata at the installed height", 30)
+	nfz := c.Frozen("C18")
+	nfz += c.FrozenFiltered("C07", "C18/type-specific-initialisation", func(fn string) bool {
+		return strings.HasSuffix(fn, "ClientState.Initialize") || strings.Contains(fn, "setConsensusMetadata")
+	})
+	c.Extra["frozen_entries"] = nfz
+
 	c.Rule("C18/stored-exactly-once", "every success path of create / upgrade / toggle / update stores the client state exactly once (a success that silently skips the store — e.g. only when the height advanced — leaves the previous client in place; TSS heights never advance)", 4)
 	for _, f := range []string{"CreateClient", "UpgradeClient", "ToggleClient", "UpdateClient"} {
 		fn := c.F(clKeeper + "Keeper." + f)
